@@ -4,14 +4,19 @@ P = dict(
     memcheck_stride=dict(quick=20, thorough=20),
     level='exploration',
     technique='runtime monitoring: generated test programs executed by the real framework and by a sequential reference interpreter '
-              '(trace, printed failures, summary, counters, runner return value compared), jump-buffer depth / current-test hooks after every test, '
+              '(trace, printed failures, summary, counters, runner return value compared), jump-buffer depth / current-test hooks after every test '
+              '(also of every enclosing test of a nested run, up to the deepest nesting level the jump-buffer stack allows), histories of command-line runner invocations in one process '
+              'with the process-wide configuration left as the runner left it, '
               'check counter of the result in use read before every statement (names the statement class that was not counted once when the check count of a repetition is wrong), '
               'ASan/UBSan builds with and without C++ exceptions',
     rule='cases: generated programs (0..40 tests, thorough up to 300; setup/body/teardown scripts of marks, passing checks, failing C++-style and C-style checks, '
          'std/foreign exceptions, prints, TEST_EXIT; plugin-reported errors; IGNOREd tests; filters; 1..4 repetitions with repetition-dependent failures), '
          'always including blocks of 12..16 (thorough 25..40) consecutive failing tests; run through a private registry, through CommandLineTestRunner::runAllTestsMain '
-         'and as a forked RUN_ALL_TESTS process, plain and nested inside an outer test; a quarter of the programs in the crash-on-fail configuration (UtestShell::setCrashOnFail() before the run, or -f on the command line) '
-         'with a crash method that returns; plus the complete table of (setup, body, teardown) outcome triples x 13 consecutive tests x {default terminators, crash-on-fail by API, crash-on-fail by -f}. '
+         'and as a forked RUN_ALL_TESTS process, plain and nested inside 1..4 enclosing outer tests (nesting level 2..5 = jump-buffer capacity / 2; never deeper), each outer test a complete test of its own '
+         '(setup, body that runs the next level and then completes or fails a C++-style / C-style check, teardown, own registry, result, output and plugin) and judged like one; '
+         'histories of 2..3 CommandLineTestRunner invocations in ONE process (own registry and program each, option sets -e/-ci, -f, -v/-vv, -c, -r, -ri, -b, filters drawn independently; every invocation judged by the same per-program model, '
+         'static configuration not reset in between), plus the complete table first option set x second option set x {failing C++-style, C-style check, std, foreign exception} x phase; a quarter of the programs in the crash-on-fail configuration (UtestShell::setCrashOnFail() before the run, or -f on the command line) '
+         'with a crash method that returns; plus the complete table of (setup, body, teardown) outcome triples x 13 consecutive tests x {default terminators, crash-on-fail by API, crash-on-fail by -f} x {nesting level 1, deepest nesting level}. '
          'Check statements are drawn from a catalogue of 124 check forms covering every check family of UtestShell and of the C interface (true/fail/string/string-n/no-case/contains/longs/unsigned/long long/bytes/pointers/function pointers/doubles/binary/bits/equals/CHECK_THROWS) '
          'with ordinary and with boundary arguments that take the shortcut paths of the family (binary or string-n compare of length 0, both or one operand NULL, prefixes, empty bit mask, zero tolerance, infinities, extreme values), on the passing and on the failing path; '
          'the catalogue is also enumerated completely (every form x phase x registry/runner, failing in one repetition and passing in the other, alone, three times in a row, and in front of a failing check). '
@@ -21,13 +26,26 @@ P = dict(
         quick=dict(programs_with_failing_run_longer_than_jump_buffer_stack=1500, depth_checks_after_test=50000, process_runs=100, failed_flag_checks=50000, summaries_parsed=5000, runner_returned_zero=50, repetitions_ran_nothing=100,
                    programs_crash_on_fail_with_a_failing_check=1000, programs_crash_on_fail_with_a_failing_check_in_setup=500, programs_crash_on_fail_set_by_flag_f=300, programs_crash_on_fail_set_by_api=500, crash_hook_calls=20000,
                    catalogue_forms_enumerated=1400, statement_check_count_deltas_compared=1500000, zero_length_binary_compares_executed=15000, programs_with_a_zero_length_binary_compare_and_a_failing_phase=3000,
-                   checks_with_null_operands_executed=60000, boundary_argument_checks_executed=120000, boundary_argument_checks_failing=30000, checks_binary_length_0_passing=6000, checks_throws_ordinary_passing=2500),
+                   checks_with_null_operands_executed=60000, boundary_argument_checks_executed=120000, boundary_argument_checks_failing=30000, checks_binary_length_0_passing=6000, checks_throws_ordinary_passing=2500,
+                   histories=1500, option_histories_enumerated=1400, history_invocations_with_e_after_an_invocation_without_e=800, history_invocations_with_e_and_an_escaping_exception_after_an_invocation_without_e=400,
+                   history_invocations_without_f_after_an_invocation_with_f=250, history_later_invocations_with_a_failing_phase=1500,
+                   programs_at_deepest_nesting_level=2000, programs_at_deepest_nesting_level_with_a_failing_c_style_check=900, programs_at_deepest_nesting_level_with_a_failing_cpp_style_check=900,
+                   programs_at_deepest_nesting_level_whose_enclosing_test_fails_afterwards=1000, test_executions_at_deepest_nesting_level=50000, outer_tests_judged=9000),
         thorough=dict(programs_with_failing_run_longer_than_jump_buffer_stack=8000, programs_with_failing_run_of_25_or_more=5000, depth_checks_after_test=1000000, process_runs=400, runner_returned_zero=300, repetitions_ran_nothing=500,
                       programs_crash_on_fail_with_a_failing_check=5000, programs_crash_on_fail_set_by_flag_f=2000, crash_hook_calls=100000,
                       catalogue_forms_enumerated=1400, statement_check_count_deltas_compared=10000000, zero_length_binary_compares_executed=100000, programs_with_a_zero_length_binary_compare_and_a_failing_phase=20000,
-                      checks_with_null_operands_executed=400000, boundary_argument_checks_executed=800000, boundary_argument_checks_failing=200000, checks_binary_length_0_passing=40000, checks_throws_ordinary_passing=15000),
+                      checks_with_null_operands_executed=400000, boundary_argument_checks_executed=800000, boundary_argument_checks_failing=200000, checks_binary_length_0_passing=40000, checks_throws_ordinary_passing=15000,
+                      histories=5000, option_histories_enumerated=1400, history_invocations_with_e_after_an_invocation_without_e=2500, history_invocations_with_e_and_an_escaping_exception_after_an_invocation_without_e=1200,
+                      history_invocations_without_f_after_an_invocation_with_f=700, history_later_invocations_with_a_failing_phase=5000,
+                      programs_at_deepest_nesting_level=4000, programs_at_deepest_nesting_level_with_a_failing_c_style_check=2000, programs_at_deepest_nesting_level_with_a_failing_cpp_style_check=2000,
+                      programs_at_deepest_nesting_level_whose_enclosing_test_fails_afterwards=2000, test_executions_at_deepest_nesting_level=100000, outer_tests_judged=20000),
     ),
-    assumptions=['Gcc platform (setjmp/longjmp jump-buffer stack of UtestPlatform.cpp)', 'rethrowing of unexpected exceptions is switched off (-e) whenever a program throws',
+    assumptions=['Gcc platform (setjmp/longjmp jump-buffer stack of UtestPlatform.cpp)', 'rethrowing of unexpected exceptions is switched off (-e / -ci on the invocation\'s OWN command line) whenever a program throws; earlier invocations of a history may or may not have passed it. '
+                 'An exception that leaves runAllTestsMain is recorded by the harness and reported only together with a stated clause (trace, summaries)',
+                 'histories consist of command-line runner invocations only (a bare TestRegistry run does not set the rethrow flag, so after an invocation without -e it rethrows by design); crash-on-fail stays on after an invocation with -f (the runner never switches it off): '
+                 'the returning crash hook stays installed for the whole history and the model is the same with and without it',
+                 'nesting depth is bounded by the jump-buffer stack (CppUTestVerif_JumpBufferCapacity() / 2 levels, two entries per level); deeper nesting is undefined in the unchanged code and never generated. '
+                 'Failures of a nested run belong to the nested run\'s own TestResult: an enclosing test fails only through its own check',
                  'crash-on-fail (-f / UtestShell::setCrashOnFail()) is exercised only with a crash method that returns (UtestShell::setCrashMethod(): trap-and-continue hook); with the default crash method the process aborts at the first failing check by design. When the hook is called is not judged (counted as evidence only)',
                  'separate-process (-p) and shuffle (-s) runs are outside this check',
                  '"true number of checks" = one per executed check macro whatever its arguments and verdict; CHECK_COMPARE is left out of the catalogue (its passing path does not call into the framework, so the tree counts 0 for it: recorded as an observation, not judged)',
